@@ -138,6 +138,13 @@ pub fn ell_cases(g: &mut Gen, ells: &[String], rounds: usize) {
             g.push(format!("ELL\t{name}\tgeodesic_inv\t{}", args([lon, lat.clamp(-1.5, 1.5), lon2, lat2])), "ell-geodesic-inv", true);
             g.push(format!("ELL\t{name}\tdistance\t{}", args([lon, lat.clamp(-1.5, 1.5), lon2, lat2])), "ell-distance", true);
         }
+        // cartesian points on and next to the rotation axis, on the equator plane, at the centre
+        {
+            let args = |v: [f64; 4]| v.iter().map(|x| fbits(*x)).collect::<Vec<_>>().join(",");
+            for v in [[0.0, 0.0, 6.35e6, 2000.0], [0.0, 0.0, -6.36e6, 0.0], [0.0, 0.0, 6.45e6, 0.0], [1e-13, 0.0, 6.35e6, 0.0], [1e-9, -1e-9, -6.4e6, 0.0], [0.0, 0.0, 1.0, 0.0], [0.0, 0.0, 0.0, 0.0], [6.4e6, 0.0, 0.0, 0.0], [0.0, -6.3e6, 0.0, 0.0], [-0.0, 0.0, -0.0, 0.0]] {
+                g.push(format!("ELL\t{name}\tgeographic\t{}", args(v)), "ell-geographic-axis", true);
+            }
+        }
         // special lines: along a meridian, along the equator, a point onto itself, across the antimeridian
         let args = |v: [f64; 4]| v.iter().map(|x| fbits(*x)).collect::<Vec<_>>().join(",");
         for v in [[0.3, -0.4, 0.3, 0.9], [0.3, 0.0, 0.5, 0.0], [0.2, 0.9, 0.2, 0.9], [3.1, 0.5, -3.1, 0.6], [0.0, hp, 1.0, -hp]] {
